@@ -4,14 +4,33 @@
    Classes are an index function over k <= K' (K = S K' classes, so the maximum is always defined). *)
 From PB Require Import Ops.
 
+Section Shifted.
+Context {T : Type} (P : ops T).
+Variables (K' : nat) (l : nat -> T).
+(* affiliation = exp(log_pdf - max log_pdf) *)
+Definition shifted (k : nat) : T := oexp P (oadd P (l k) (oopp P (bmax P K' l))).
+End Shifted.
+
 Section Posterior.
 Context {T : Type} (P : ops T).
 Variables (K' : nat) (tiny eps : T) (w l : nat -> T) (b : nat -> bool).
 
-(* affiliation = exp(log_pdf - max log_pdf) *)
-Definition shifted (k : nat) : T := oexp P (oadd P (l k) (oopp P (bmax P K' l))).
+(* log_pdf = where(source_activity_mask, log_pdf, -inf) BEFORE the maximum (fix c.f. DESIGN 0.3): the scaling is the largest
+   log-pdf of an ACTIVE class, 0 when no class is active.  -inf is not a value of every instance (RO has none); an inactive
+   class is given the active maximum instead - its exponential is multiplied by the mask's 0 either way, and the maximum
+   over the classes is the same. *)
+Fixpoint amax_opt (n : nat) : option T :=
+  match n with
+  | O => if b O then Some (l O) else None
+  | S m => match amax_opt m with
+           | None => if b (S m) then Some (l (S m)) else None
+           | Some v => if b (S m) then Some (omax P v (l (S m))) else Some v
+           end
+  end.
+Definition amax : T := match amax_opt K' with Some v => v | None => o0 P end.
+Definition lmask (k : nat) : T := if b k then l k else amax.
 (* affiliation *= weight ; affiliation *= source_activity_mask *)
-Definition unnorm (k : nat) : T := omul P (omul P (shifted k) (w k)) (obool P (b k)).
+Definition unnorm (k : nat) : T := omul P (omul P (shifted P K' lmask k) (w k)) (obool P (b k)).
 (* denominator = maximum(sum, tiny) *)
 Definition den : T := omax P (bsum P (S K') unnorm) tiny.
 Definition posterior (k : nat) : T := omul P (unnorm k) (oinv P den).
